@@ -180,6 +180,48 @@ void vf_harness(void) { int b, e; writeFile(b, e); VF_CANARY(); }
 from units.C09 import parse_query as _pq10
 UNITS += [write_file, _pq10]
 
+# ---- HttpServer::serve: the Connection request header ("keep-alive" / "close") is a case-insensitive token (RFC 9110 7.6.1): it is compared in lower case.
+# Typestate over the value: every comparison of `hconn` with a lower-case literal must see a lower-cased value.
+HS = 'src/HttpServer.cpp'
+def conn_rule(text):
+    """reduces HttpServer::serve to the definition of `hconn` and its comparisons"""
+    import re
+    m = re.search(r'String hconn = ([^;]*);', text)
+    cmps = re.findall(r'\bhconn\s*(?:==|!=)\s*"([^"]*)"', text)
+    if not m or not cmps:
+        return text, 0
+    init = m.group(1)
+    init = re.sub(r'request\.header\("Connection"\)', 'HDR_RAW()', init)
+    for _ in range(3):
+        init = re.sub(r'(HDR_RAW\(\)|T_LOWER\([^;]*?\))\.toLowerCase\(\)', r'T_LOWER(\1)', init)
+        init = re.sub(r'(HDR_RAW\(\)|T_LOWER\([^;]*?\))\.trimmed\(\)', r'\1', init)
+    out = '{ TV hconn = %s;\n' % init + ''.join('  CMP(hconn, "%s");\n' % c for c in cmps) + '}'
+    return out, 1
+conn_rule.must_fire = True
+conn_unit = Unit(
+    'HttpServer_connection_token', 'C10',
+    cuts=[Cut('sv', HS, r'^void HttpServer::serve\(Socket client\)\s*$', rules=[conn_rule])],
+    text=PRE + r'''
+typedef struct TV { bool lowered; } TV;
+int g_cmps, g_bad;
+static TV HDR_RAW(void) { TV t = { false }; return t; }                 /* request.header("Connection"): the value as the client wrote it ("Keep-Alive", "KEEP-ALIVE", "Close") */
+static TV T_LOWER(TV t) { t.lowered = true; return t; }
+static void CMP(TV t, const char* lit) { for (int i = 0; i < 16 && lit[i]; i++) __CPROVER_assert(!(lit[i] >= 'A' && lit[i] <= 'Z'), "the literal is lower case"); if (!t.lowered) g_bad = 1;
+  __CPROVER_assert(t.lowered, "the Connection option is compared case-insensitively: the header value is lower-cased before it is compared with \"keep-alive\" / \"close\""); g_cmps++; }
+void serve_connection(void)
+__CPROVER_requires(g_cmps == 0 && g_bad == 0)
+__CPROVER_ensures(!g_bad && g_cmps >= 2)
+__CPROVER_assigns(g_cmps, g_bad)
+@@sv@@
+void vf_harness(void) { serve_connection(); VF_CANARY(); }
+''',
+    entry='serve_connection', unwind=20,
+    desc='HttpServer::serve: every test of the Connection header against "keep-alive" / "close" sees the lower-cased value (Keep-Alive from an HTTP/1.0 client keeps the connection open, Close closes it)',
+    functions=['HttpServer::serve (Connection header)'],
+    trusted=['String::toLowerCase lower-cases ASCII (C08)'],
+)
+UNITS += [conn_unit]
+
 # replay: the native counterpart of the loop-turn units is the driver's battery: the real HttpRequest reader fed through a socketpair with six requests on one connection
 # (Content-Length and chunked bodies with binary content, folded headers), delivered whole, cut at request boundaries, cut every 97/333/1000 bytes, cut inside a chunk
 for _u in UNITS:
